@@ -210,6 +210,8 @@ def handle (st : DSt) (line : String) : DSt × String :=
     match i.toNat?, parseOp ts with
     | some i, some op =>
       let R := (tblOf st).code
+      -- the instance index is taken modulo the number of live instances (same convention on the real side)
+      let i := if st.world.isEmpty then i else i % st.world.length
       let r := wstep R st.world i op (ip == "1")
       let o := match r.out with
         | .error e => "err " ++ e.name
